@@ -88,14 +88,14 @@ def ex37 : List TarEntry := [lnk ["s"] true ["", ""] "/", lnk ["t"] false ["s", 
 
 theorem C06_unpack_contained_fails :
     (unpackAll exD exS0 ex37).1.get ["sb", "target", "t"] = some (.link ⟨false, ["s", ".."], "s/.."⟩) ∧
-    linkDest exD (unpackAll exD exS0 ex37).1 fuel0 ["sb", "target", "t"] ⟨false, ["s", ".."], "s/.."⟩ = .ok ["sb"] ∧
+    linkDest exD (unpackAll exD exS0 ex37).1 50 ["sb", "target", "t"] ⟨false, ["s", ".."], "s/.."⟩ = .ok ["sb"] ∧
     isPrefix exD ["sb"] = false ∧
     containedB exD exS0 (unpackAll exD exS0 ex37).1 = false :=
   ⟨by decide, by rfl, by decide, by decide⟩
 
 theorem C06_unpack_not_contained : ¬ Contained exD exS0 (unpackAll exD exS0 ex37).1 := by
   intro h
-  have := h.2 ["sb", "target", "t"] ⟨false, ["s", ".."], "s/.."⟩ (by decide) C06_unpack_contained_fails.1 fuel0 ["sb"]
+  have := h.2 ["sb", "target", "t"] ⟨false, ["s", ".."], "s/.."⟩ (by decide) C06_unpack_contained_fails.1 50 ["sb"]
     C06_unpack_contained_fails.2.1
   exact absurd this (by decide)
 
